@@ -178,3 +178,164 @@ pub proof fn lemma_wt_set_signer_weight(m: Seq<(Signer, u32)>, signer: Signer, w
     lemma_smap_get_set(m, signer, weight, signer);
     lemma_smap_get_set(m, signer, weight, other);
 }
+
+// ---- no subset of distinct signers can weigh more than the total: with a valid configuration
+// (total <= u32::MAX) the checked sum never reverts for a duplicate-free signer list, so for such lists
+// can_enforce / enforce decide *exactly* "Σ weights >= threshold" ----
+pub proof fn lemma_u32_sum_remove(s: Seq<u32>, i: int)
+    requires 0 <= i < s.len(),
+    ensures u32_sum(s.remove(i)) == u32_sum(s) - s[i],
+    decreases s.len()
+{
+    if i == s.len() - 1 {
+        assert(s.remove(i) =~= s.drop_last());
+    } else {
+        assert(s.remove(i).drop_last() =~= s.drop_last().remove(i));
+        assert(s.remove(i).last() == s.last());
+        lemma_u32_sum_remove(s.drop_last(), i);
+    }
+}
+pub proof fn lemma_smap_remove_entry(m: Seq<(Signer, u32)>, i: int, s: Signer)
+    requires smap_wf(m), 0 <= i < m.len(), s != m[i].0,
+    ensures wt_weight_of(m.remove(i), s) == wt_weight_of(m, s), smap_wf(m.remove(i)),
+{
+    let m2 = m.remove(i);
+    assert forall|j: int| 0 <= j < m2.len() implies #[trigger] m2[j] == (if j < i { m[j] } else { m[j + 1] }) by {}
+    assert forall|a: int, b: int| 0 <= a < m2.len() && 0 <= b < m2.len() && a != b implies (#[trigger] m2[a]).0 != (#[trigger] m2[b]).0 by {
+        let oa = if a < i { a } else { a + 1 };
+        let ob = if b < i { b } else { b + 1 };
+        assert(m[oa].0 != m[ob].0);
+    }
+    lemma_smap_idx_char(m, s);
+    let r = smap_idx(m, s);
+    let r2 = if r < 0 { -1 } else if r < i { r } else { r - 1 };
+    assert forall|j: int| 0 <= j < m2.len() && (r2 < 0 || j < r2) implies (#[trigger] m2[j]).0 != s by {
+        if j < i { assert(m[j].0 != s); } else { assert(m[j + 1].0 != s); }
+    }
+    lemma_smap_idx_unique(m2, s, r2);
+}
+pub proof fn lemma_wt_sum_pointwise(m: Seq<(Signer, u32)>, m2: Seq<(Signer, u32)>, signers: Seq<Signer>)
+    requires forall|j: int| 0 <= j < signers.len() ==> wt_weight_of(m, #[trigger] signers[j]) == wt_weight_of(m2, signers[j]),
+    ensures wt_sum(m, signers) == wt_sum(m2, signers),
+    decreases signers.len()
+{
+    if signers.len() > 0 {
+        assert forall|j: int| 0 <= j < signers.drop_last().len() implies
+            wt_weight_of(m, #[trigger] signers.drop_last()[j]) == wt_weight_of(m2, signers.drop_last()[j]) by {
+            assert(signers.drop_last()[j] == signers[j]);
+        }
+        lemma_wt_sum_pointwise(m, m2, signers.drop_last());
+        assert(signers.last() == signers[signers.len() - 1]);
+    }
+}
+pub proof fn lemma_wt_sum_le_total(m: Seq<(Signer, u32)>, signers: Seq<Signer>)
+    requires smap_wf(m), signers.no_duplicates(),
+    ensures
+        //@@ C14:weighted.sum_le_total
+        wt_sum(m, signers) <= wt_total(m),
+    decreases signers.len()
+{
+    if signers.len() == 0 {
+        lemma_wt_all_keys_prefix(m, m.len() as int);
+        assert(smap_keys(m).take(m.len() as int) =~= smap_keys(m));
+        assert(smap_vals(m).take(m.len() as int) =~= smap_vals(m));
+        lemma_wt_sum_nonneg(m, smap_keys(m));
+    } else {
+        let pre = signers.drop_last();
+        let x = signers.last();
+        assert(pre.no_duplicates()) by {
+            assert forall|a: int, b: int| 0 <= a < pre.len() && 0 <= b < pre.len() && a != b implies pre[a] != pre[b] by {
+                assert(pre[a] == signers[a] && pre[b] == signers[b]);
+            }
+        }
+        lemma_smap_idx_char(m, x);
+        let i = smap_idx(m, x);
+        if i < 0 {
+            lemma_wt_sum_le_total(m, pre);
+        } else {
+            let m2 = m.remove(i);
+            assert forall|j: int| 0 <= j < pre.len() implies wt_weight_of(m, #[trigger] pre[j]) == wt_weight_of(m2, pre[j]) by {
+                assert(pre[j] == signers[j] && x == signers[signers.len() - 1]);
+                assert(pre[j] != x);
+                lemma_smap_remove_entry(m, i, pre[j]);
+            }
+            lemma_wt_sum_pointwise(m, m2, pre);
+            if m.len() > 1 { lemma_smap_remove_entry(m, i, m[if i == 0 { 1int } else { 0int }].0); }
+            else { assert(smap_wf(m2)); }
+            lemma_wt_sum_le_total(m2, pre);
+            assert(smap_vals(m2) =~= smap_vals(m).remove(i));
+            lemma_u32_sum_remove(smap_vals(m), i);
+        }
+    }
+}
+/// C14 (weighted, exactness): in a state with a valid configuration and for a duplicate-free list of
+/// signers the weight sum fits in u32 — calculate_weight cannot hit MathOverflow
+pub proof fn lemma_wt_no_overflow(m: Seq<(Signer, u32)>, t: u32, signers: Seq<Signer>)
+    requires smap_wf(m), wt_valid(m, t), signers.no_duplicates(),
+    ensures
+        //@@ C14:weighted.no_overflow_for_distinct_signers
+        0 <= wt_sum(m, signers) <= u32::MAX,
+{
+    lemma_wt_sum_le_total(m, signers);
+    lemma_wt_sum_nonneg(m, signers);
+}
+
+// ---- representation invariant: every stored configuration is valid; kept by every state-changing function ----
+pub open spec fn inv_wt(w: World) -> bool {
+    forall|a: Address, id: u32| #[trigger] wt_installed(w, a, id) ==>
+        smap_wf(wt_weights(w, a, id)) && wt_valid(wt_weights(w, a, id), wt_thr(w, a, id))
+}
+/// install (guard: wt_valid(params)), set_threshold (guard: wt_valid(old weights, new threshold)) and
+/// set_signer_weight (guard: wt_valid(updated weights, old threshold) — the alternative `threshold == 0`
+/// of its contract is excluded by the invariant) all store a valid configuration
+pub proof fn lemma_wt_inv_store(w: World, a: Address, id: u32, m: Seq<(Signer, u32)>, t: u32)
+    requires inv_wt(w), smap_wf(m), wt_valid(m, t),
+    ensures
+        //@@ C14:weighted.invariant.store
+        inv_wt(wt_store_post(w, a, id, m, t)),
+{
+    lemma_wt_store(w, a, id, m, t);
+    let w2 = wt_store_post(w, a, id, m, t);
+    assert forall|a2: Address, id2: u32| #[trigger] wt_installed(w2, a2, id2) implies
+        smap_wf(wt_weights(w2, a2, id2)) && wt_valid(wt_weights(w2, a2, id2), wt_thr(w2, a2, id2)) by {
+        if a2 != a || id2 != id {
+            assert(wt_params(w2, a2, id2) == wt_params(w, a2, id2));
+            assert(wt_installed(w, a2, id2));
+        }
+    }
+}
+pub proof fn lemma_wt_inv_other(w: World, ctx: Context, signers: Vec<Signer>, a: Address, id: u32)
+    requires inv_wt(w),
+    ensures
+        //@@ C14:weighted.invariant.enforce_uninstall
+        inv_wt(wt_enforce_post(w, ctx, signers, id, a)),
+        inv_wt(wt_uninstall_post(w, a, id)),
+{
+    lemma_wt_uninstall(w, a, id);
+    let w2 = wt_uninstall_post(w, a, id);
+    assert forall|a2: Address, id2: u32| #[trigger] wt_installed(w2, a2, id2) implies
+        smap_wf(wt_weights(w2, a2, id2)) && wt_valid(wt_weights(w2, a2, id2), wt_thr(w2, a2, id2)) by {
+        if a2 != a || id2 != id {
+            assert(wt_params(w2, a2, id2) == wt_params(w, a2, id2));
+            assert(wt_installed(w, a2, id2));
+        }
+    }
+    let w3 = wt_enforce_post(w, ctx, signers, id, a);
+    assert forall|a2: Address, id2: u32| #[trigger] wt_installed(w3, a2, id2) implies
+        smap_wf(wt_weights(w3, a2, id2)) && wt_valid(wt_weights(w3, a2, id2), wt_thr(w3, a2, id2)) by {
+        assert(wt_params(w3, a2, id2) == wt_params(w, a2, id2));
+        assert(wt_installed(w, a2, id2));
+    }
+}
+/// C14 (weighted), assembled: in a state satisfying the invariant, for a duplicate-free signer list,
+/// the policy accepts exactly when the (unbounded) weight sum reaches the threshold, and that sum fits u32
+pub proof fn lemma_wt_exact(w: World, a: Address, id: u32, signers: Seq<Signer>)
+    requires inv_wt(w), wt_installed(w, a, id), signers.no_duplicates(),
+    ensures
+        //@@ C14:weighted.accepts_exactly
+        wt_accepts(w, a, id, signers) == (wt_sum(wt_weights(w, a, id), signers) >= wt_thr(w, a, id)),
+        wt_sum(wt_weights(w, a, id), signers) <= u32::MAX,
+        wt_thr(w, a, id) >= 1,
+{
+    lemma_wt_no_overflow(wt_weights(w, a, id), wt_thr(w, a, id), signers);
+}
